@@ -137,7 +137,7 @@ class P(ServeProp):
                 for _ in range(rnd.randint(1, 4)):
                     cd = rnd.choice(['form-data; name="f"', 'form-data; name="g"; filename="x.bin"', 'form-data; name="h"', 'form-data; name=""', "form-data"])
                     pb = rnd.choice([b"abc", b"", b"\xff\xfe\x80binary", b"line1\r\nline2", "é😀".encode(), bytes(rnd.randrange(256) for _ in range(rnd.randint(0, 30)))])
-                    wf.append(b"--" + bd.encode() + b"\r\nContent-Disposition: " + cd.encode() + b"\r\n" + rnd.choice([b"", b"Content-Type: application/octet-stream\r\n"]) + b"\r\n" + pb + b"\r\n")
+                    wf.append(b"--" + bd.encode() + b"\r\nContent-Disposition: " + cd.encode() + b"\r\n" + rnd.choice([b"", b"Content-Type: application/octet-stream\r\n"]) + b"\r\n" + pb + (b"\n" if (len(pb) + len(wf)) % 3 == 0 else b"\r\n"))     # a bare line feed ends some parts (the part reader accepts either; no draw, the streams of earlier runs stay)
                 body = b"".join(wf) + b"--" + bd.encode() + b"--\r\n"
                 return "POST", t, ["Content-Type: multipart/form-data; boundary=" + bd, "Content-Length: %d" % len(body)], body
             body = bd.encode() + b"".join(b"\r\n" + p + b"\r\n" + bd.encode() for p in parts)
